@@ -12,6 +12,8 @@ import (
 	"context"
 	"encoding/json"
 	"fmt"
+	"github.com/cloudwego/hertz/pkg/app/server/render"
+	"github.com/cloudwego/hertz/pkg/common/tracer/traceinfo"
 	"io"
 	"reflect"
 	"sort"
@@ -84,7 +86,6 @@ var excluded = map[string]string{
 	"RequestContext.Reset":            "the reset function itself (internal)",
 	"RequestContext.ResetWithoutConn": "the reset function itself (internal)",
 	"RequestContext.SetConn":          "connection-scoped",
-	"RequestContext.SetTraceInfo":     "connection-scoped",
 	"RequestContext.SetEnableTrace":   "connection-scoped",
 	"RequestContext.Next":             "re-enters the handler chain (the harness handler would recurse)",
 	"RequestContext.SetHandlers":      "replaces the chain that is executing (covered by C12)",
@@ -95,7 +96,6 @@ var excluded = map[string]string{
 	"RequestContext.SaveUploadedFile": "writes to the file system",
 	"RequestContext.HTML":             "needs a configured renderer",
 	"RequestContext.Render":           "needs a renderer value",
-	"Request.SetIsTLS":                "connection-scoped",
 	"Request.SetFile":                 "client-side API reading the file system",
 	"Request.SetFiles":                "client-side API reading the file system",
 	"Request.SetOptions":              "client-side request options",
@@ -184,11 +184,37 @@ func alphabet() (ops []string, skipped []string) {
 			}
 		}
 	}
+	for k := range customOps {
+		ops = append(ops, k)
+	}
 	sort.Strings(ops)
 	return
 }
 
+// markerRender is an HTML renderer a handler installs for its own response.
+type markerRender struct{}
+
+func (markerRender) Instance(string, interface{}) render.Render {
+	return render.String{Format: "marker"}
+}
+func (markerRender) Close() error { return nil }
+
+// custom operations: arguments the generic generator cannot build (interface-typed)
+var customOps = map[string]func(ctx *app.RequestContext){
+	"RequestContext#HTMLRender=marker": func(ctx *app.RequestContext) { ctx.HTMLRender = markerRender{} },
+	"RequestContext.SetTraceInfo(own)": func(ctx *app.RequestContext) {
+		ti := traceinfo.NewTraceInfo()
+		ti.Stats().SetSendSize(77)
+		ctx.SetTraceInfo(ti)
+	},
+}
+
 func applyOp(ctx *app.RequestContext, op string) (panicked interface{}) {
+	if f := customOps[op]; f != nil {
+		defer func() { panicked = recover() }()
+		f(ctx)
+		return nil
+	}
 	if i := strings.IndexByte(op, '#'); i >= 0 {
 		obj := target(ctx, op[:i])
 		f := reflect.ValueOf(obj).Elem().FieldByName(op[i+1:])
@@ -221,6 +247,8 @@ func dump(ctx *app.RequestContext) []string {
 	ctx.Response.Header.Trailer().VisitAll(func(k, v []byte) { out = append(out, fmt.Sprintf("resptr %q=%q", k, v)) })
 	out = append(out, fmt.Sprintf("ctx.Keys=%d Params=%d Errors=%d", len(ctx.Keys), len(ctx.Params), len(ctx.Errors)))
 	out = append(out, fmt.Sprintf("ctx.FormValue(a)=%q FormValue(x)=%q", ctx.FormValue("a"), ctx.FormValue("x")))
+	out = append(out, fmt.Sprintf("ctx.HTMLRender type=%T", ctx.HTMLRender))
+	out = append(out, fmt.Sprintf("ctx.GetTraceInfo()==nil: %v", ctx.GetTraceInfo() == nil))
 	out = append(out, fmt.Sprintf("header-bytes req=%q", ctx.Request.Header.Header()))
 	out = append(out, fmt.Sprintf("header-bytes resp=%q", noDate(string(ctx.Response.Header.Header()))))
 	return out
@@ -554,7 +582,7 @@ func reducedOps(all []string) []string {
 	want := []string{
 		"RequestContext.SetStatusCode", "RequestContext.Header", "RequestContext.SetCookie", "RequestContext.Set", "RequestContext.Abort", "RequestContext.AbortWithStatus",
 		"RequestContext.Error", "RequestContext.SetBodyString", "RequestContext.SetBodyStream", "RequestContext.Redirect", "RequestContext.SetContentType", "RequestContext.SetConnectionClose",
-		"RequestContext.PostArgs", "RequestContext.MultipartForm", "RequestContext.SetFullPath", "RequestContext.Exile", "RequestContext.Body", "RequestContext.FormValue", "RequestContext.ForEachKey!panic", "RequestContext.SetClientIPFunc", "RequestContext.SetFormValueFunc",
+		"RequestContext.PostArgs", "RequestContext.MultipartForm", "RequestContext.SetFullPath", "RequestContext.Exile", "RequestContext.Body", "RequestContext.FormValue", "RequestContext.ForEachKey!panic", "RequestContext.SetClientIPFunc", "RequestContext.SetFormValueFunc", "RequestContext#HTMLRender=marker", "RequestContext.SetTraceInfo(own)", "Request.SetIsTLS",
 		"Request.SetBody", "Request.SetBodyStream", "Request.SetRequestURI", "Request.SetHost", "Request.SetMethod", "Request.SetCookie", "Request.SetQueryString", "Request.SetMultipartFormData",
 		"Request.SetFormData", "Request.ResetBody", "Request.SetHeader", "Request.SetConnectionClose", "Request.SetMaxKeepBodySize",
 		"Response.SetBody", "Response.SetBodyStream", "Response.SetStatusCode", "Response.SetConnectionClose", "Response.HijackWriter", "Response.SetMaxKeepBodySize", "Response.SetBodyRaw",
